@@ -303,7 +303,10 @@ class PubSubModel:
             c.ack_expected = False
         else:
             c.ack_expected = None
-        accepted = (decision == MUST_ACCEPT) or (decision == DONT_CARE and ack is not None)
+        # where the statement leaves the outcome open, follow what the manager did: it either acknowledged
+        # the request or closed the connection while handling it
+        closed_now = any(c_ == fr.conn and fr.done_seq < s_ < next_read for (s_, c_) in self.net.closes)
+        accepted = (decision == MUST_ACCEPT) or (decision == DONT_CARE and (ack is not None or not closed_now))
         # identity fields are taken over by the manager before it decides (they show in CLIENT_CLOSED)
         m.unique = unique
         m.name = name
